@@ -209,6 +209,25 @@ func c10Check(p *gPKI, g *verifier.Graph, delivered map[int]bool, roots map[int]
 			}
 		}
 	}
+	// the per-node list of issuer-less parent edges holds exactly the edges to that node that have no issuer
+	for _, n := range gotNodes {
+		want := map[*verifier.GraphEdge]bool{}
+		for _, e := range edges {
+			if v := verifier.VerifEdge(e); v.Child == n && v.Issuer == nil {
+				want[e] = true
+			}
+		}
+		got := verifier.VerifNodeDanglingParents(n)
+		for _, e := range got {
+			if !want[e] {
+				return nil, Failf("c10.adjacency", "a node lists an edge as issuer-less parent although the edge has an issuer (or belongs to another node)", "step %d", step)
+			}
+			delete(want, e)
+		}
+		if len(want) > 0 || len(got) != len(dedupEdges(got)) {
+			return nil, Failf("c10.adjacency", "an issuer-less edge is missing from (or repeated in) its child's list of issuer-less parents", "step %d", step)
+		}
+	}
 	// adjacency maps contain nothing else
 	for _, n := range gotNodes {
 		for child, es := range verifier.VerifNodeChildren(n) {
@@ -248,6 +267,14 @@ func c10Check(p *gPKI, g *verifier.Graph, delivered map[int]bool, roots map[int]
 	sort.Strings(st.Edges)
 	sort.Strings(st.Roots)
 	return st, nil
+}
+
+func dedupEdges(l []*verifier.GraphEdge) map[*verifier.GraphEdge]bool {
+	m := map[*verifier.GraphEdge]bool{}
+	for _, e := range l {
+		m[e] = true
+	}
+	return m
 }
 
 func execC10(t *testing.T, scAny any, keepLog bool) (o *Outcome) {
